@@ -24,8 +24,9 @@ func (ip *Interp) namedType(pkg, name string) types.Type {
 }
 
 type rvalue struct { // reflect.Value model
-	v Value
-	t types.Type
+	v    Value
+	t    types.Type
+	addr *Value // set when the value was obtained through Elem() of a pointer (addressable)
 }
 
 type rtype struct{ t types.Type }
@@ -180,7 +181,23 @@ func registerEnv(ip *Interp) {
 		if p == nil {
 			return &Native{&rvalue{}}
 		}
-		return &Native{&rvalue{v: *p, t: pt.Elem()}}
+		return &Native{&rvalue{v: *p, t: pt.Elem(), addr: p}}
+	})
+	ip.reg("(reflect.Value).Set", func(ip *Interp, fr *frame, a []Value) Value {
+		dst := a[0].(*Native).V.(*rvalue)
+		src := a[1].(*Native).V.(*rvalue)
+		if dst.addr == nil {
+			ip.rtPanic("reflect: reflect.Value.Set using unaddressable value")
+		}
+		if src.t == nil || !types.Identical(src.t, dst.t) {
+			panic(unsupported("reflect.Value.Set with a value of another type"))
+		}
+		val := src.v
+		if src.addr != nil {
+			val = *src.addr
+		}
+		ip.store(dst.t, dst.addr, copyVal(val))
+		return nil
 	})
 	ip.reg("(reflect.Value).Type", func(ip *Interp, fr *frame, a []Value) Value {
 		rv := a[0].(*Native).V.(*rvalue)
